@@ -96,7 +96,12 @@ func HasEOF(r io.ReaderAt) (bool, error) {
 		return false, nil
 	}
 	b := make([]byte, len(magicBlock))
-	_, err := r.ReadAt(b, size-int64(len(magicBlock)))
+	n, err := r.ReadAt(b, size-int64(len(magicBlock)))
+	if n == len(b) && err == io.EOF {
+		// A ReaderAt may return io.EOF with a read that ends at
+		// the end of the input.
+		err = nil
+	}
 	if err != nil {
 		return false, err
 	}
